@@ -262,7 +262,20 @@ static void randomCase(vh::Rng& rng, long ops) {
       if (g_logs.empty() || (created < aim && r < (aim > 20 ? 45u : 12u))) {
          // new log (or, now and then, an existing name again)
          if (!g_logs.empty() && rng.chance(1, 8)) doCreateLog(g_logs[rng.below(g_logs.size())].name);
-         else { ++created; doCreateLog("L" + std::to_string(created)); }
+         else {
+            // a log may be asked for by its name before it exists (pre-check of a macro, GET_LOG, a message by name) and again
+            // right after it was created: what was answered about the name before must not stick
+            const std::string nm = "L" + std::to_string(created + 1);
+            const bool early = rng.chance(1, 3);
+            auto byName = [&](int how) {
+               if (how == 0) doPreCheck("name", 0, nm, {0, 1, 2, 3, 4, 5, 6});
+               else if (how == 1) doGetLog("name", {}, nm);
+               else { Msgs one; one.emplace_back(rng.range(1, 6), rng.range(1, 6)); doSend(how == 2 ? "name" : "macro-name", {}, nm, one); }
+            };
+            if (early) byName(static_cast<int>(rng.below(4)));
+            ++created; doCreateLog(nm);
+            if (early || rng.chance(1, 4)) byName(static_cast<int>(rng.below(4)));
+         }
          continue;
       }
       const long k = 1 + static_cast<long>(rng.below(g_logs.size()));
